@@ -1471,7 +1471,9 @@ pub fn f12(thorough: bool) -> Vec<Case> {
 /// (empty, statement, nested empty loop, call) × place (program, function, FB, method).
 pub fn f14() -> Vec<Case> {
     let mut out = Vec::new();
-    let loops: [(&str, &str, &str); 4] = [
+    let loops: [(&str, &str, &str); 5] = [
+        // a backward JMP is a loop that passes through no loop statement
+        ("jmp-back", "again:", "JMP again;"),
         ("while", "WHILE NOT stop DO", "END_WHILE;"),
         ("while-true", "WHILE TRUE DO", "END_WHILE;"),
         ("repeat", "REPEAT", "UNTIL stop END_REPEAT;"),
